@@ -99,3 +99,76 @@ func loopRerunTable() []*Program {
 	}
 	return out
 }
+
+// loopFormTable: every combination of (init, condition, post) present/absent in a for header, with a yielding body,
+// a yielding post or a yielding init, and break/return as the way out when there is no condition.
+func loopFormTable() []*Program {
+	var out []*Program
+	k := 0
+	for mask := 0; mask < 8; mask++ {
+		hasInit, hasCond, hasPost := mask&1 != 0, mask&2 != 0, mask&4 != 0
+		for _, yieldIn := range []string{"body", "post", "init", "body-and-post"} {
+			if (yieldIn == "post" || yieldIn == "body-and-post") && !hasPost || yieldIn == "init" && !hasInit {
+				continue
+			}
+			for _, exit := range []string{"break", "return", "cond"} {
+				if (exit == "cond") != hasCond {
+					continue
+				}
+				k++
+				name := fmt.Sprintf("F%04d", k)
+				var sb strings.Builder
+				sb.WriteString("$GEN{" + name + "G(a int)}{int}{\n\tn := 0\n\t_ = n\n")
+				init, cond, post := "", "", ""
+				pre := ""
+				if hasInit {
+					init = "i := 0"
+					if yieldIn == "init" {
+						pre = "\ti := 0\n"
+						init = "$YIELD{70 + a}"
+					}
+				} else {
+					pre = "\ti := 0\n"
+				}
+				if hasCond {
+					cond = "i < 2+a%2"
+				}
+				inBody := "tr.Ev(1, i)\n"
+				if hasPost {
+					post = "i++"
+					if yieldIn == "post" || yieldIn == "body-and-post" {
+						post = "$YIELD{100 + i}"
+						inBody += "\t\ti++\n"
+					}
+				} else {
+					inBody += "\t\ti++\n"
+				}
+				head := "for"
+				if hasInit || hasPost {
+					head = "for " + init + "; " + cond + "; " + post
+				} else if hasCond {
+					head = "for " + cond
+				}
+				sb.WriteString(pre + "\t" + head + " {\n\t\t" + inBody)
+				if !hasCond {
+					ex := "break"
+					if exit == "return" {
+						ex = "$RET"
+					}
+					sb.WriteString("\t\tif i > 2+a%2 {\n\t\t\t" + ex + "\n\t\t}\n")
+				}
+				if yieldIn == "body" || yieldIn == "body-and-post" {
+					sb.WriteString("\t\t$YIELD{i}\n")
+				} else {
+					sb.WriteString("\t\tn += i\n")
+				}
+				sb.WriteString("\t}\n\t$YIELD{1000 + n}\n\t$RET\n}")
+				p := &Program{Name: name, Profile: "loop-form-table", Tags: []string{"loop-form", fmt.Sprintf("init:%v", hasInit), fmt.Sprintf("cond:%v", hasCond), fmt.Sprintf("post:%v", hasPost), "yield-in:" + yieldIn, "exit:" + exit}}
+				p.Decls = []*Decl{{Kind: "raw", Raw: sb.String()}}
+				p.Entries = []*Entry{drive(name+"G", "int", 1, [][]int{{0}, {1}})}
+				out = append(out, p)
+			}
+		}
+	}
+	return out
+}
